@@ -79,8 +79,10 @@ func vpFreeHeader(tag string, h *coin.BlockHeader) {
 
 //vp:prop C04
 //vp:bounds submitted block with every header field and the signature free, 0..2 transactions of 1 input x 1 output with free contents; head block with free header; non-empty chain (length > 0); the node's unspent checksum free; non-arbitrating (follower) mode
-//vp:assume SHA256 collision free (A-HASH); publisher-signature verification (cipher.VerifyPubKeySignedHash) is an uninterpreted predicate of (pubkey, signature, header hash) (A-SIG); per-transaction rule checking (transaction.VerifyBlockTxnConstraints) summarised as an arbitrary verdict (C01/C09 cover it)
+//vp:assume SHA256 collision free (A-HASH); publisher-signature verification (cipher.VerifyPubKeySignedHash) is an uninterpreted predicate of (pubkey, signature, header hash) (A-SIG), and so are the other signature checks of package cipher (recoverability, address ownership), each a separate predicate; per-transaction rule checking (transaction.VerifyBlockTxnConstraints) summarised as an arbitrary verdict (C01/C09 cover it)
 //vp:rule github.com/skycoin/skycoin/src/cipher.VerifyPubKeySignedHash uf:pubkeysigok
+//vp:rule github.com/skycoin/skycoin/src/cipher.VerifySignatureRecoverPubKey uf:sigrecover
+//vp:rule github.com/skycoin/skycoin/src/cipher.VerifyAddressSignedHash uf:addrsigok
 //vp:rule github.com/skycoin/skycoin/src/transaction.VerifyBlockTxnConstraints havoc
 //vp:noreplay stores are fakes and signatures uninterpreted; counterexamples are confirmed by a native test on a real database
 func vpH_C04_ExecuteSignedBlock() {
